@@ -26,7 +26,7 @@ def select(progs, tier, seed):
     return core + rng.sample(nulls, min(len(nulls), 120))
 
 
-def run_programs(progs, lp=2, extra_args=(), timeout=90):
+def run_programs(progs, lp=2, extra_args=(), timeout=900):
     exe = vlib.build_harness("api_replay", ["api_replay.c"], alloc=True)
     tdir = vlib.tmpdir()
 
